@@ -17,6 +17,7 @@ RULE = ("pool of 8 inputs over one bin table (empty, one pixel, full row, diagon
         "triple of a 4-pool merged as ((a,b),c), (a,(b,c)) and (a,b,c); refusals: every ordered pair of 9 mutually incompatible "
         "coolers; dtype limits: sums exactly at and one past the int32 / uint16 maximum, and an explicitly requested output dtype of other signedness / width (uint32->int32, int32->uint32/uint64, int64->int32/uint8, uint8->int8) with aggregates on both sides of its range. Non-trivial: >=2 inputs with >=1 pixel in "
         "total, or a refusal/limit case. Distinct by construction.")
+EXTRA_LEGS = 'every other case writes into an output path that already holds the merge of other inputs.'
 BOUNDS = {"quick": "k<=2 all sequences + 120 multisets of 3, mergebuf {1,2,5,1e6}; agg/column sweep on k<=2",
           "thorough": "all 512 sequences of 3 x mergebuf {1,2,5,1e6}; all 625 sequences of 4 over a 5-element sub-pool x mergebuf {1,3}; agg/column sweep on k<=3 multisets; square + variable with k<=3"}
 ASSUMPTIONS = ["values are small integers / dyadic rationals so every aggregate is exact; 'mean' only on the float column",
